@@ -452,7 +452,7 @@ def minimise(z, plan, profile, klass, max_runs=400, max_seconds=None):
         cand = P.clone(best)
         del cand["files"][idx]
         attempt(cand)
-    for k, dflt in (("poison", 85), ("cache_period", 0), ("cache_offset", 0), ("deny_mmap", 0)):
+    for k, dflt in (("poison", 85), ("cache_period", 0), ("cache_offset", 0), ("deny_mmap", 0), ("stale_dwerr", 0)):
         if best["knobs"].get(k, dflt) != dflt:
             cand = P.clone(best)
             cand["knobs"][k] = dflt
